@@ -22,17 +22,22 @@ from common import Broken, Violation
 MANIFEST = {
     "text": "Coq theorems about an executable model of NumberToJson.convert2Es6Format and the sort_keys encoder of "
             "Canonicalize.py: number text = ECMAScript Number::toString for every digit string of length 1..17 and "
-            "every exponent in Z (from a restatement of float.__repr__), NaN/Infinity refused, members strictly "
-            "sorted by UTF-16 code units at every depth, output invariant under member permutation, no whitespace "
-            "outside string literals, escaping = RFC 8785 minimal escaping, sort_deep fixed point, and a fuelled JSON "
-            "reader that parses the canonical text back to the key-sorted value (hence injectivity).",
+            "every exponent in Z (from a restatement of float.__repr__); NaN/Infinity refused; escaping = RFC 8785 minimal "
+            "escaping for every string; the byte order of the sort key is the UTF-16 code unit order; canon v = plain "
+            "serialization (no whitespace, members in given order) of the value with every object's members ordered by "
+            "UTF-16 units at every depth (canon_emit, canon_sorted); output invariant under member permutation at top "
+            "level and at every depth (canon_perm, canon_perm_deep); no whitespace outside string literals; sort/canon "
+            "fixed point; an independent JSON reader parses the canonical text back to the key-ordered value "
+            "(canon_parse), hence the text determines the value (canon_injective).",
     "design_ref": "DESIGN.md 6/C16, A.3, A.4",
     "note": "Model hand-written; tied to /repo by a correspondence run each check (doubles by bit pattern, boundary "
             "decimals, strings/keys with BMP/astral/control characters, nesting to depth 6, shuffled orders). "
             "Trusted: Coq kernel + vm_compute, the restatement of float.__repr__ (validated each run against the real "
             "repr from independently obtained shortest digits), that repr yields the shortest round-trip digits "
             "(CPython guarantee, sampled), Spec/Rfc8785.v written from memory of RFC 8785 / ECMA-262. Python ints with "
-            "|z| > 2^53 are outside the model (the code converts them through float()). No axioms.",
+            "|z| > 2^53 are outside the model (the code converts them through float()). The reader of canon_parse returns "
+            "number literals as text (float parsing is not modelled); the re-canonicalization fixed point through a real "
+            "reader (json.loads) is checked by the oracle on every case, the model-level fixed point is canon_fixpoint. No axioms.",
     "technique": "Coq proof over a hand-written executable model + correspondence run + independent RFC 8785 oracle",
 }
 
